@@ -165,6 +165,7 @@ class ForInv(object):
         from pyvc.engine import PathEnd, ContinueSig, BreakSig, Unsupported
         st = I.st
         tag = '%s.loop%d' % key
+        I.inv_phase = 'init'
         for nm, g in self.inv(I, fr, z3.IntVal(0)):
             st.vc('%s.init:%s' % (tag, nm), g, kind='inv')
         in_body = st.branch(z3.Bool('%s!enter!%d' % (tag, next(st.n))))
@@ -172,6 +173,7 @@ class ForInv(object):
         if in_body:
             k = z3.Int('%s!k!%d' % (tag, next(st.n)))
             st.assume(z3.And(k >= 0, k < seq.length))
+            I.inv_phase = 'assume'
             for nm, g in self.inv(I, fr, k):
                 st.assume(g)
             I.assign(s.target, seq.elem(k), fr)
@@ -181,11 +183,13 @@ class ForInv(object):
                 pass
             except BreakSig:
                 raise Unsupported('break inside a loop cut at an invariant')
+            I.inv_phase = 'preserved'
             for nm, g in self.inv(I, fr, k + 1):
                 st.vc('%s.preserved:%s' % (tag, nm), g, kind='inv')
             raise PathEnd()
         else:
             n = seq.length
+            I.inv_phase = 'exit'
             for nm, g in self.inv(I, fr, n):
                 st.assume(g)
             if s.orelse:
